@@ -431,3 +431,30 @@ func canonVal(v pred.Val) pred.Val {
 	}
 	return v
 }
+
+// ruleNewDeleg: date.New = FromTime(time.Date(year, month, day, 0,0,0,0, time.UTC)). Rules that summarise New (the
+// calendar guard of the parser, the binary reader) depend on it: with another location midnight may not exist on
+// a DST-change day and a real date would be normalised away.
+func ruleNewDeleg(e *Env, rule string) {
+	fn := e.Fn(rule, "date", "New")
+	if fn == nil {
+		return
+	}
+	sums := map[string]pred.Summary{}
+	if f := e.F("date", "FromTime"); f != nil {
+		sums[f.String()] = func(ev *pred.Evaluator, args []pred.Val) (pred.Val, error) {
+			return pred.Term{Fn: "FromTime", Args: args}, nil
+		}
+	}
+	ev := &pred.Evaluator{Prog: e.P.SSA, Oracle: noOracle{}, Summaries: sums}
+	out, err := ev.Eval(fn, []pred.Val{pred.Sym{Name: "year"}, pred.Sym{Name: "month"}, pred.Sym{Name: "day"}})
+	want := "FromTime(time.Date(year,month,day,0,0,0,0,*time.UTC))"
+	switch {
+	case err != nil:
+		e.S.Unk(rule, flow.FnName(fn), "New", err.Error(), e.Pos(fn))
+	case out.Ret.String() != want:
+		e.S.Bad(rule, flow.FnName(fn), "New", "New computes "+out.Ret.String()+", documented "+want, e.Pos(fn), "")
+	default:
+		e.S.Ok(rule, flow.FnName(fn), "New", "= "+want, e.Pos(fn))
+	}
+}
